@@ -19,7 +19,7 @@ Vocabulary (defined in `Corro/Lemmas/Ingest.lean`):
 (`s.delivered`).  That such a batch stores what it is given is `Node.deliver`'s business (C03) and is
 checked here by the correspondence (`held` after `reoffer` on the real node).
 -/
-import Corro.Lemmas.IngestInv
+import Corro.Lemmas.IngestCover
 
 namespace Corro.Ingest
 open Corro Corro.Node
@@ -173,38 +173,6 @@ theorem repaired_eviction_example :
 
 /-! ### a changeset that is not pending is accepted again -/
 
-theorem not_suppressed_of_fresh {P : List Item} {sn : Seen} {it : Item}
-    (hs : SoundWrt P sn) (hf : Fresh P it) : suppresses sn it = false := by
-  cases it with
-  | full site ver lo hi last cs =>
-    obtain ⟨x, hx1, hx2, hno⟩ := hf
-    cases hg : sn.get? (site, ver) with
-    | none => simp [suppresses, hg]
-    | some rs =>
-      simp only [suppresses, hg]
-      apply Bool.eq_false_iff.2
-      intro hall
-      rw [List.all_eq_true] at hall
-      have hc := hall (x - lo) (by simp; omega)
-      have hx : lo + (x - lo) = x := by omega
-      rw [hx] at hc
-      have hmem := (RSet.contains_iff rs x).1 hc
-      obtain ⟨i, hi, hcov⟩ := (hs _ (get?_some_mem hg)).2 x hmem
-      exact hno i hi hcov
-  | empty site vlo vhi =>
-    obtain ⟨v, hv1, hv2, hno⟩ := hf
-    simp only [suppresses]
-    apply Bool.eq_false_iff.2
-    intro hall
-    rw [List.all_eq_true] at hall
-    have hc := hall (v - vlo) (by simp; omega)
-    have hv : vlo + (v - vlo) = v := by omega
-    rw [hv] at hc
-    obtain ⟨e, he, hk⟩ := (hasKey_iff sn (site, v)).1 hc
-    obtain ⟨⟨i, hi, hb⟩, _⟩ := hs e he
-    rw [hk] at hb
-    exact hno i hi hb
-
 /-- **C10, `reoffer_accepted`.**  Under `seen_sound`: a changeset of another actor (forward seq range)
 that the node does not hold and some part of which is carried by nothing pending, failed or delivered is accepted by
 the next offer — it becomes the newest element of the queue and is queued or running when the loop
@@ -234,61 +202,6 @@ theorem reoffer_accepted (p : Params) (s : State) (it : Item) (b : Bool)
       unfold offer; rw [if_pos hacc, hsh]; rfl
 
 /-! ### once the overload is over, one more offer suffices -/
-
-theorem coveredBy_self (it : Item) {D : List Item} (h : it ∈ D) : CoveredBy D it := by
-  cases it with
-  | full site ver lo hi last cs =>
-    intro x h1 h2
-    exact ⟨_, h, ⟨rfl, Nat.le_refl _, Nat.le_refl _⟩, (lo, hi), rfl, h1, h2⟩
-  | empty site vlo vhi =>
-    intro v h1 h2
-    exact ⟨_, h, rfl, h1, h2⟩
-
-theorem coveredBy_mono {D D' : List Item} {it : Item} (h : ∀ i ∈ D, i ∈ D') (hc : CoveredBy D it) :
-    CoveredBy D' it := by
-  cases it with
-  | full site ver lo hi last cs =>
-    intro x h1 h2
-    obtain ⟨i, hi', hcov⟩ := hc x h1 h2
-    exact ⟨i, h i hi', hcov⟩
-  | empty site vlo vhi =>
-    intro v h1 h2
-    obtain ⟨i, hi', hb⟩ := hc v h1 h2
-    exact ⟨i, h i hi', hb⟩
-
-theorem coveredBy_of_suppressed {P : List Item} {sn : Seen} {it : Item}
-    (hs : SoundWrt P sn) (h : suppresses sn it = true) : CoveredBy P it := by
-  cases it with
-  | full site ver lo hi last cs =>
-    cases hg : sn.get? (site, ver) with
-    | none => simp [suppresses, hg] at h
-    | some rs =>
-      simp only [suppresses, hg] at h
-      rw [List.all_eq_true] at h
-      intro x h1 h2
-      have hc := h (x - lo) (by simp; omega)
-      have hx : lo + (x - lo) = x := by omega
-      rw [hx] at hc
-      exact (hs _ (get?_some_mem hg)).2 x ((RSet.contains_iff rs x).1 hc)
-  | empty site vlo vhi =>
-    simp only [suppresses] at h
-    rw [List.all_eq_true] at h
-    intro v h1 h2
-    have hc := h (v - vlo) (by simp; omega)
-    have hv : vlo + (v - vlo) = v := by omega
-    rw [hv] at hc
-    obtain ⟨e, he, hk⟩ := (hasKey_iff sn (site, v)).1 hc
-    obtain ⟨⟨i, hi, hb⟩, _⟩ := hs e he
-    rw [hk] at hb
-    exact ⟨i, hi, hb⟩
-
-theorem coveredBy_of_inverted {D : List Item} {it : Item} (h : inverted it = true) : CoveredBy D it := by
-  cases it with
-  | full site ver lo hi last cs =>
-    intro x h1 h2
-    simp only [inverted, decide_eq_true_eq] at h
-    omega
-  | empty site vlo vhi => simp [inverted] at h
 
 /-- **C10, `eventually_applied` (with the bound).**  For all parameters with `MAX_CONCURRENT ≥ 1`,
 every state in which no failed batch has left a residue (`NoResidue` — an invariant of ALL runs of
